@@ -3,6 +3,8 @@ package conc
 import (
 	"crypto"
 	"fmt"
+	"math/big"
+	"strings"
 
 	secp256k1 "gitlab.com/yawning/secp256k1-voi"
 	"gitlab.com/yawning/secp256k1-voi/secec"
@@ -378,6 +380,71 @@ func init() {
 				return hx(P().MultiScalarMultVartime(ss, ps).CompressedBytes())
 			}
 			return hx(P().MultiScalarMult(ss, ps).CompressedBytes())
+		}},
+		// ---------------- calls that are refused (error paths run concurrently too)
+		{name: "Rejections", cost: 30000, warm: true, run: func(fx *Fixture, o *Op, c *ctx) string {
+			var out []string
+			add := func(v any) { out = append(out, fmt.Sprint(v)) }
+			pk, sk := pick(fx.pubs, o.A), pick(fx.privs, o.B)
+			dg := pick(fx.digests, o.C)
+			add(pk.Verify(dg[:31], pick(fx.sigASN1, o.A), nil))                                                 // short digest
+			add(pk.Verify(append(append([]byte{}, dg...), 1), pick(fx.sigCompact, o.A), fx.opts))               // digest length vs hash
+			add(pk.Verify(dg, pick(fx.sigRec, o.A), &secec.ECDSAOptions{Encoding: secec.SignatureEncoding(7)})) // unknown encoding
+			add(pk.Verify(dg, pick(fx.sigRec, o.A+1), &secec.ECDSAOptions{Encoding: secec.EncodingCompactRecoverable}))
+			_, err := sk.Sign(c.device(o.Seed, false), dg[:20], nil)
+			add(err != nil)
+			_, err = sk.Sign(c.device(o.Seed, false), dg, &secec.ECDSAOptions{Encoding: secec.SignatureEncoding(9)})
+			add(err != nil)
+			_, err = secec.NewPrivateKey(make([]byte, 32))
+			add(err != nil)
+			_, err = secec.NewPrivateKey(ref.I2OSP32(ref.N))
+			add(err != nil)
+			_, err = secec.NewPublicKey([]byte{0})
+			add(err != nil)
+			_, err = secec.ParseASN1PublicKey(pick(fx.pubEncs, o.A))
+			add(err != nil)
+			_, err = bitcoin.NewSchnorrPublicKey(ref.I2OSP32(ref.P))
+			add(err != nil)
+			_, err = bitcoin.NewSchnorrPublicKey(ref.I2OSP32(big.NewInt(5)))
+			add(err != nil)
+			_, err = bitcoin.PreHashSchnorrMessage("", pick(fx.msgs, o.B))
+			add(err != nil)
+			add(pick(fx.spubs, o.A).Verify(pick(fx.msgs, o.B), pick(fx.schSigs, o.C)[:63]))
+			_, _, err = secec.ParseCompactSignature(make([]byte, 64))
+			add(err != nil)
+			_, _, _, err = secec.ParseCompactRecoverableSignature(pick(fx.sigRec, o.A)[:64])
+			add(err != nil)
+			_, _, err = secec.ParseASN1Signature(pick(fx.sigCompact, o.A))
+			add(err != nil)
+			add(bitcoin.IsValidSignatureEncodingBIP0066(pick(fx.sigCompact, o.A)))
+			add(bitcoin.VerifyASN1(pk, dg, pick(fx.sigASN1, o.A)))
+			_, err = secec.RecoverPublicKey(dg, pick(fx.sigR, o.A), pick(fx.sigS, o.A), 9)
+			add(err != nil)
+			_, err = secp256k1.RecoverPoint(pick(fx.scalars, o.A), 200)
+			add(err != nil)
+			id, err := P().SetBytes([]byte{0})
+			add(err == nil && id.IsIdentity() == 1)
+			_, err = P().SetBytes([]byte{1})
+			add(err != nil)
+			_, err = P().SetCompressedBytes(pick(fx.pubEncs, o.A+1))
+			add(err != nil)
+			_, err = P().SetUncompressedBytes(pick(fx.pubEncs, o.A))
+			add(err != nil)
+			var bad [32]byte
+			copy(bad[:], ref.I2OSP32(ref.P))
+			_, err = secp256k1.NewPointFromCoords(&bad, &bad)
+			add(err != nil)
+			_, err = secp256k1.NewScalarFromCanonicalBytes((*[32]byte)(ref.I2OSP32(ref.N)))
+			add(err != nil)
+			_, err = secec.NewPublicKeyFromPoint(secp256k1.NewIdentityPoint())
+			add(err != nil)
+			_, err = h2c.Secp256k1_XMD_SHA256_SSWU_RO(nil, pick(fx.msgs, o.B))
+			add(err != nil)
+			// the one-term and generator paths
+			add(hx(P().MultiScalarMult(fx.msmScalars[:1], fx.msmPoints[:1]).CompressedBytes()))
+			add(hx(P().MultiScalarMultVartime(fx.msmScalars[1:2], fx.msmPoints[1:2]).CompressedBytes()))
+			add(hx(P().Generator().CompressedBytes()) == hx(secp256k1.NewGeneratorPoint().CompressedBytes()))
+			return strings.Join(out, ",")
 		}},
 		// ---------------- a batch whose slices are themselves shared by the callers
 		{name: "MultiScalarMult(shared slices)", cost: 60000, warm: true, run: func(fx *Fixture, o *Op, c *ctx) string {
